@@ -25,7 +25,7 @@ Definition invb (s : state) : bool :=
   && match ret s with
      | Some RNil => complete s || reneg s
      | Some RHsErr => hs_err s
-     | Some RCtx => conn_closed s && cancelled s && is_pret (p s)
+     | Some RCtx => conn_closed s && cancelled s && is_pret (p s) && is_ifired (it s)
      | Some RBuildErr => true
      | None => negb (ret_set (p s)) || (match p s with PUnlMu => false | _ => false end)
      end
@@ -38,6 +38,7 @@ Definition invb (s : state) : bool :=
   && (negb (done_closed s) || after_done (p s))
   && (negb (is_ifired (it s)) || conn_closed s && cancelled s)
   && (negb (cancelled s) || cancellable s)
+  && (negb (is_pret (p s) && is_ifired (it s)) || match ret s with Some RCtx => true | _ => false end)
   && (negb (match p s with P4 | P5 | P6 => true | _ => false end) || negb (complete s) && negb (hs_err s)).
 
 (* ---- the state space is finite: statements about one step are decided by an exhaustive sweep ---- *)
@@ -115,6 +116,12 @@ Definition inwait_p (s : state) : bool :=
                   | P4 => negb (complete s) && negb (hs_err s) && negb (owner_eqb (inl s) Parked)
                   | _ => true end).
 Lemma inwait_all : forallb inwait_p all_states = true. Proof. vm_compute. reflexivity. Qed.
+
+(* a returned caller whose own interrupter closed the connection reports its ctx error, and only such a caller does *)
+Definition interrupted_p (s : state) : bool :=
+  implb (invb s && returned s)
+        (eqb (is_ifired (it s)) (match ret s with Some RCtx => true | _ => false end)).
+Lemma interrupted_all : forallb interrupted_p all_states = true. Proof. vm_compute. reflexivity. Qed.
 
 (* guarantee: what the caller and its interrupter do to the shared state is something the environment may do *)
 Definition own_label (l : label) : bool := match l with LC | LBodyOk | LBodyErr | LBuildErr | LIFire | LIDone => true | _ => false end.
